@@ -1,9 +1,8 @@
 (* C02 — Pack followed by Unpack reproduces the source tree. *)
-From Slug Require Import Base.Str Base.PathAlg FS.FS FS.FSProofs Slug.Unpack Slug.UnpackSafe Slug.Pack Slug.PackProofs.
+From Slug Require Import Base.Str Base.PathAlg Base.PathLemmas FS.FS FS.FSProofs Slug.Unpack Slug.UnpackSafe Slug.Pack Slug.PackProofs
+  Slug.RoundTrip Slug.RoundTripPack.
 
-(* glue between the two models: a Pack entry as the tar entry Unpack reads *)
-Definition to_entry (e : pentry) : entry :=
-  mkEntry (pe_name e) (pe_type e) (pe_link e) (pe_perm e) (pe_mtime e) (pe_body e).
+(* glue between the two models: a Pack entry as the tar entry Unpack reads: RoundTripPack.to_entry *)
 
 Definition round_trip (fuel : nat) (fs : node) (opts : popts) (src dst : str) : option (node * ures) :=
   match fst (pack fuel fs opts [true; false; false] [] src) with
@@ -11,7 +10,44 @@ Definition round_trip (fuel : nat) (fs : node) (opts : popts) (src dst : str) : 
   | _ => None
   end.
 
-(* Pieces that are proved for all inputs:
+(* ---- the round trip, for every tree of regular files and directories ----
+   [stree]: regular files and directories, any depth and width; [wf]: every name a single plain
+   path segment, no name twice in a directory; [wfs]: directory listings sorted (the order in which
+   filepath.Walk reads them and in which the model's file system lists a directory).  The source
+   directory is a real directory below real directories; the destination is an existing empty
+   directory given by a clean absolute path; ignore processing is off; any allow list, any cwd,
+   any state of the shared flags.  Then Pack succeeds, and unpacking what it wrote puts into the
+   destination exactly the source tree - same names, contents and permissions, every file and
+   directory time rounded to the nearest second ([rounded]) - and nothing else changes. *)
+Theorem C02_round_trip_files_and_directories :
+  forall fs opts flags cwd fuel pre x pmR mtR ks dst pmD mtD,
+    is_dir fs = true -> rdir fs pre -> forallb seg_ok (pre ++ [x]) = true ->
+    get fs (pre ++ [x]) = Some (to_node (SDir pmR mtR ks)) ->
+    o_ignore opts = false -> sheight (SDir pmR mtR ks) < fuel ->
+    wf (SDir pmR mtR ks) -> wfs (SDir pmR mtR ks) ->
+    dst_ok dst -> rdir fs (comps_of dst) -> get fs (comps_of dst) = Some (Dir pmD mtD []) ->
+    exists es files size,
+      pack fuel fs opts flags cwd (join_abs (pre ++ [x])) = (PackOk es files size, flags) /\
+      unpack true (o_allow opts) fs dst (map to_entry es)
+      = (put fs (comps_of dst) (Dir pmD (match ks with [] => mtD | _ => None end) (map rp ks)), ROk).
+Proof. exact pack_unpack_round_trip. Qed.
+Print Assumptions C02_round_trip_files_and_directories.
+
+(* non-vacuity: a tree with an empty directory, an empty file, odd modes, nesting *)
+Definition c02_stree : stree :=
+  SDir 493 (Some 1500000000400000000%Z)
+    [ (s2l "a", SFile (s2l "alpha") 256 (Some 1400000000500000000%Z));
+      (s2l "e", SFile [] 420 (Some 1400000001499999999%Z));
+      (s2l "emptydir", SDir 448 (Some 1500000002600000000%Z) []);
+      (s2l "sub", SDir 493 (Some 1500000003000000000%Z)
+         [ (s2l "f", SFile (s2l "data") 384 (Some 1400000004000000001%Z)) ]) ].
+Example C02_hypotheses_satisfiable :
+  wf c02_stree /\ wfs c02_stree /\ sheight c02_stree < 10 /\
+  forallb seg_ok ([] ++ [s2l "src"]) = true /\ dst_ok (s2l "/dst").
+Proof. cbn. repeat split; try reflexivity; try lia; repeat constructor; cbn; intuition discriminate. Qed.
+
+(* Pieces that are proved for all inputs (also for trees with links, where the general
+   round trip is not proved):
    - Pack stores exactly the content of in-tree regular files and only valid
      links (C05), its metadata describes the entries (C20);
    - Unpack writes nothing outside dst (C01);
@@ -31,7 +67,7 @@ Qed.
    empty directory, an empty file, modes 0400 / 0755 / 0600, half-second mtimes
    on both sides of the rounding boundary, an in-tree relative link, a dangling
    link, a file in a sub-directory, entry names needing no special treatment.
-   (The general round-trip theorem - for every tree - is not proved; the
+   (For trees with links the general round trip is not proved; there the
    property is decided per run by the correspondence of both models plus the
    tree comparison on the implementation.) *)
 Definition c02_src : node :=
